@@ -450,6 +450,30 @@ def gen_desc(rng, tier, ui, proved_only=False):
                           bases=PROVED_BASES if proved_only else None)
 
 
+def attr_clash(desc, cid, elt):
+    """does a child element carry an attribute named like a member of the class of its parent
+    (complex_from_element reads such attributes into the parent: outside the document class)?"""
+    flds = {f['name']: f for _, f in G.flat_fields(desc, cid)}
+    for ch in elt:
+        if not isinstance(ch.tag, str):
+            continue
+        name = ch.tag.split('}')[-1]
+        if any(k in flds for k in ch.attrib if not k.startswith('{')):
+            return True
+        f = flds.get(name)
+        if f is None:
+            continue
+        t = f['ty']
+        kids = [ch]
+        while t[0] == 'arr':
+            kids = [g for k in kids for g in k]
+            t = t[1]
+        if t[0] == 'ref':
+            if any(attr_clash(desc, t[1], k) for k in kids):
+                return True
+    return False
+
+
 def in_proved_class(desc, notes):
     """is a generated document in the class of C06_verdicts_agree with la_canon?  The leaf classes
     are integers / strings / booleans without total_digits, and the document departs from
@@ -493,7 +517,10 @@ def corr_universe(check, ui, tier):
     docs = []
     for cid in range(n):
         for _ in range(per_class):
-            v = G.gen_conformant(rng, desc, ['ref', cid], depth=rng.randint(1, 3), nullable=False)
+            try:
+                v = G.gen_conformant(rng, desc, ['ref', cid], depth=rng.randint(1, 3), nullable=False)
+            except G.GenSkip:
+                continue
             try:
                 req = W.request(cid, v)
             except Exception as e:
@@ -512,7 +539,7 @@ def corr_universe(check, ui, tier):
             x, dn = G.gen_doc(rng, desc, W.classes, cid, desc['tns'], 'x', depth=rng.randint(1, 3))
             m, body = wrap('xml', desc['tns'], 'm%d' % cid, x)
             docs.append((cid, etree.fromstring(body), 'generated ' + ','.join(sorted(set(dn)))))
-            if in_proved_class(desc, dn):
+            if in_proved_class(desc, dn) and not attr_clash(desc, cid, x):
                 class_docs.append((cid, etree.fromstring(body), ','.join(sorted(set(dn)))))
     for cid, tree, what in docs:
         texts.extend(doc_texts(tree))
@@ -820,7 +847,10 @@ def oracle_universe(check, ui, tier, desc=None, proto=None, tag=''):
     per_class = 4 if tier == 'quick' else 10
     for cid in range(len(W.classes)):
         for _ in range(per_class):
-            v = G.gen_conformant(rng, desc, ['ref', cid], depth=rng.randint(1, 3), nullable=False)
+            try:
+                v = G.gen_conformant(rng, desc, ['ref', cid], depth=rng.randint(1, 3), nullable=False)
+            except G.GenSkip:
+                continue
             oracle_emitted(check, W, ui, cid, v, tag)
         for _ in range(per_class * 3):
             x, dn = G.gen_doc(rng, desc, W.classes, cid, desc['tns'], 'x', depth=rng.randint(1, 3))
